@@ -112,6 +112,7 @@ class Repo:
         self.inlined = inline.apply(self)
         self.local_aliases = inline.expand_local_object_aliases(self)
         self.zip_peeled = inline.peel_zip_loops(self)
+        self.named_conditions = inline.expand_named_conditions(self)
 
     def module(self, rel):
         if rel not in self.modules:
